@@ -800,7 +800,9 @@ _OVER = [1.01e-8, 2e-8, 1e-7, 1e-6]
 _S_SMALL = st.sampled_from(_SMALL)
 _S_OVER = st.sampled_from(_OVER)
 _I05 = st.integers(0, 5)
-_NEAR_MODE = st.sampled_from(["equal", "within", "within", "edge", "over", "band_rot", "same_rot", "same_pos"])
+_NEAR_MODE = st.sampled_from(["equal", "within", "within", "edge", "over", "close_rel", "close_rel", "band_rot",
+                              "same_rot", "same_pos"])
+_REL_MAG = G.log_uniform(1e-8, 1e-3)
 _TINY_ANG = G.log_uniform(1e-10, 1e-5)
 _BOOL = st.booleans()
 
@@ -819,6 +821,15 @@ def _draw_near(draw, A):
             dl[draw(_I05)] = draw(_S_OVER) * draw(_SIGN)
         if mode == "edge":
             dl[draw(_I05)] = 1e-8 * draw(_SIGN)
+        return _clip_frame(A + dl)
+    if mode == "close_rel":
+        # distinct frames that differ by a RELATIVELY small amount (1e-8..1e-3 of the coordinate) in one or two
+        # coordinates: an equality test with a relative tolerance would wrongly merge them
+        dl = np.zeros(6)
+        for _ in range(draw(st.integers(1, 2))):
+            i = draw(_I05)
+            mag = abs(A[i]) if A[i] != 0 else 1.0
+            dl[i] = mag * draw(_REL_MAG) * draw(_SIGN)
         return _clip_frame(A + dl)
     if mode == "band_rot":
         small = _draw_unit(draw) * draw(_TINY_ANG)
@@ -906,13 +917,22 @@ def _frame_case(**extra):
     return st.fixed_dictionaries(base)
 
 
-def _arith_case(forms, extra=None):
+def _draw_close_pair(draw):
+    """Frame pairs for the cross-frame clauses: half of them in a CLOSE relation (equal / within / just over the
+    1e-8 shortcut / relatively close / band), because that is where an operator decides whether to reconcile."""
+    if draw(_BOOL):
+        return _draw_pair(draw)
+    A = draw(_FRAMES10)
+    return A, _draw_near(draw, A)
+
+
+def _arith_case(forms, extra=None, close=False):
     s_forms = st.sampled_from(forms)
     extra = dict(extra or {})
 
     @st.composite
     def build(draw):
-        A, B = _draw_pair(draw)
+        A, B = _draw_close_pair(draw) if close else _draw_pair(draw)
         case = {"kind": draw(KINDS), "dshape": draw(DSHAPE), "A": A, "B": B, "d": draw(_SIX),
                 "form": draw(s_forms), "sf": draw(SCAL_F), "si": draw(SCAL_I), "sv": draw(_SIX)}
         for k, v in extra.items():
@@ -975,7 +995,7 @@ CLAUSES = [
     Clause("pairing_invariant", c_pairing, S_PAIRING, 1000, 8000),
     Clause("force_at_point", c_force_at_point, _force_case(), 1000, 8000),
     Clause("cross_frame_sum", c_cross_frame_sum,
-           _arith_case(("obj_B",), {"op": st.sampled_from(["+", "-", "+=", "-="])}), 1000, 8000),
+           _arith_case(("obj_B",), {"op": st.sampled_from(["+", "-", "+=", "-="])}, close=True), 3000, 12000),
     Clause("add_sub_cancel", c_add_sub_cancel,
            _arith_case(ALL_FORMS, {"order": st.sampled_from(["a+b", "b+a"])}), 1200, 8000),
     Clause("sub_is_add_neg", c_sub_is_add_neg, _arith_case(ALL_FORMS), 1200, 8000),
